@@ -5,6 +5,7 @@ use serde_json::Value;
 use crate::runner::{CaseEnv, Ctx, Failure};
 
 pub mod c01;
+pub mod c02;
 pub mod c03;
 pub mod c04;
 pub mod c05;
@@ -26,7 +27,7 @@ pub struct Entry {
 }
 
 pub fn all() -> Vec<Entry> {
-    vec![c01::entry(), c03::entry(), c04::entry(), c05::entry(), c06::entry()]
+    vec![c01::entry(), c02::entry(), c03::entry(), c04::entry(), c05::entry(), c06::entry()]
 }
 
 pub fn lookup(id: &str) -> Option<Entry> {
